@@ -41,6 +41,12 @@ class Gen:
             self.detour = (perm[pos[0]], perm[pos[-1]])
         edges = [(a, b, w) for (a, b), w in em.items()]
         r.shuffle(edges)
+        self.dup_edges = 0
+        if weighted and edges and r.random() < 0.4:
+            # a second insertion of an existing edge with ANOTHER weight: it must be rejected and must not re-weight the edge
+            for (a, b, w) in r.sample(edges, min(len(edges), r.choice([1, 1, 2]))):
+                w2 = r.choice([x for x in (1, 2, 3, 5, 9) if x != w])
+                edges.append((a, b, w2)); self.dup_edges += 1
         return edges, perm
 
     def tree(self, depth, kind=None, singles_only=False, weighted=False, budget=12, nmax=None):
